@@ -33,6 +33,17 @@ CLAIMS["C11"] = (
     TRUSTED + "Reference automaton / operator semantics of ISO C typed into the rule (DESIGN.md App. A).",
     "DESIGN.md §4 C11")
 
+CLAIMS["C13"] = (
+    "static analysis: exhaustive extraction of the operator x constant-kind tables of evaluate_operator/evaluate_cast "
+    "from THIR against a reference table; MIR abort inventory (overflow-class Assert terminators and operator-trait "
+    "calls on integer references) with zero-guard dominance; call-graph reachability of the evaluator",
+    "Decides, for every entry of the evaluator's tables (92 operator entries, 48 cast entries today): the Rust operation "
+    "applied, operand order, result constructor; that no arithmetic on a constant payload can abort on overflow, "
+    "out-of-range shift or zero divisor; that every position demanding a constant reaches evaluate_constexpr and handles "
+    "its error. Does not decide float<->int conversion values.",
+    TRUSTED + "Reference operator semantics typed into the rule (DESIGN.md App. A).",
+    "DESIGN.md §4 C13")
+
 NOT_YET = "rules for this property are not built yet in this round (see DESIGN.md §10 build order); no claim is made"
 
 
